@@ -430,6 +430,47 @@ impl Prop for C18 {
                 bp.path, bp.msg
             ))),
             (None, Ok(b)) => {
+                // the builder's own view of the names it holds
+                let names: Vec<&str> = case
+                    .plan
+                    .iter()
+                    .filter_map(op_name)
+                    .filter(|n| !n.is_empty())
+                    .collect();
+                for n in &names {
+                    if !b.has_system(n) || !b.contains(n) {
+                        return Err(Fail::new(format!(
+                            "has_system / contains deny the registered name {:?} (has_system {}, contains {})",
+                            n,
+                            b.has_system(n),
+                            b.contains(n)
+                        )));
+                    }
+                    for probe in [format!("{}\u{1}", n), sanitise(n), format!(" {}", n)] {
+                        if !names.contains(&probe.as_str()) && (b.has_system(&probe) || b.contains(&probe)) {
+                            return Err(Fail::new(format!(
+                                "has_system / contains report the name {:?}, which was never registered (registered: {:?})",
+                                probe, n
+                            )));
+                        }
+                    }
+                }
+                // the documentation says "systems added", the code counts the named ones: either
+                // reading is accepted, as long as the two queries agree with each other
+                let total = case.plan.iter().filter(|o| op_name(o).is_some()).count();
+                let (num, empty) = (b.num_systems(), b.is_empty());
+                let as_named = num == names.len() && empty == names.is_empty();
+                let as_all = num == total && empty == (total == 0);
+                if b.has_system("") || !(as_named || as_all) {
+                    return Err(Fail::new(format!(
+                        "the builder reports num_systems {} / is_empty {} / has_system(\"\") {}; {} systems were registered, {} of them named",
+                        num,
+                        empty,
+                        b.has_system(""),
+                        total,
+                        names.len()
+                    )));
+                }
                 let d = catch_unwind(AssertUnwindSafe(|| b.build())).map_err(|p| {
                     Fail::new(format!(
                         "build() of a well-formed sequence panicked: {}",
